@@ -350,6 +350,9 @@ def gx_stmt(self, s, rest, env, fin, ind):
         fn, vty = self.spec["setattrs"][(env[v], s.targets[0].attr)]
         if v in self.pyargs or self.loop_depth:
             raise Unsupported(f"store on {v}.{s.targets[0].attr}")
+        if any(t == env[v] and k != v and not k.startswith(("$", "@")) for k, t in env.items()):
+            # another name of the same type could be the same object: its view of the store is not modelled
+            raise Unsupported(f"store on {v}.{s.targets[0].attr} while another {env[v]} is in scope")
         (t, _), hs = self.hoisted(s.value, env, lambda: self.expr(s.value, env, vty))
         if hs:
             raise Unsupported("attribute store from a call that must be hoisted")
